@@ -1282,4 +1282,42 @@ theorem add3_full_moments (hs : LawfulSqrt sq) (eig : M3 K → V3 K × M3 K) (a 
     exact ⟨a1, a2, a3, a4, a5⟩
 
 
+/-- **`(a + b) − b = a` in 3-D, through both eigen-decompositions**: whenever `a` has at least the threshold mass, the
+solver returns orthonormal eigen-decompositions (non-negative eigenvalues) of the two matrices handed over, the result of
+`(a + b) − b` has the mass, first moment and second-moment tensor about the origin of `a`. -/
+theorem sub3_add_cancel (hs : LawfulSqrt sq) (eig : M3 K → V3 K × M3 K) (a b : MP3 K) (ha : 0 ≤ a.invMass) (hb : 0 ≤ b.invMass)
+    (hth : (1 / 8388608 : K) ≤ massOf3 a)
+    (hE1 : ∀ (m : K) (c : V3 K) (I : M3 K), @MP3.addRaw K (fieldNum K sq) a b = some (m, c, I) →
+      EigenDecomp sq I (eig I).1 (eig I).2 ∧ 0 ≤ (eig I).1.x ∧ 0 ≤ (eig I).1.y ∧ 0 ≤ (eig I).1.z)
+    (m : K) (c : V3 K) (I : M3 K)
+    (hraw : @MP3.subRaw K (fieldNum K sq) (@MP3.add K (fieldNum K sq) eig a b) b = some (m, c, I))
+    (hE2 : EigenDecomp sq I (eig I).1 (eig I).2 ∧ 0 ≤ (eig I).1.x ∧ 0 ≤ (eig I).1.y ∧ 0 ≤ (eig I).1.z) :
+    letI := fieldNum K sq
+    let r := MP3.sub eig (MP3.add eig a b) b
+    massOf3 r = massOf3 a ∧
+    r.com.x * massOf3 r = a.com.x * massOf3 a ∧ r.com.y * massOf3 r = a.com.y * massOf3 a ∧ r.com.z * massOf3 r = a.com.z * massOf3 a ∧
+    madd r.reconstruct (steiner3 (massOf3 r) r.com) = originTensor sq a := by
+  intro r
+  obtain ⟨s1, s2, s3, s4, s5⟩ := add3_full_moments sq hs eig a b ha hb hE1
+  have hth' : (1 / 8388608 : K) ≤ massOf3 (@MP3.add K (fieldNum K sq) eig a b) - massOf3 b := by rw [s1]; linarith
+  obtain ⟨t1, t2, t3, t4, t5⟩ := sub3_raw_moments sq _ b m c I hth' hraw
+  obtain ⟨hD, e1, e2, e3⟩ := hE2
+  obtain ⟨r1, r2, r3, -, -⟩ := with_inertia_matrix_recompose sq hs c m I (eig I).1 (eig I).2 hD e1 e2 e3
+  have hr : r = @MP3.withInertiaEigen K (fieldNum K sq) c m (eig I).1 (eig I).2 := by
+    simp only [r, MP3.sub, hraw, MP3.withInertiaMatrix]
+  rw [hr, r1, r2, r3]
+  refine ⟨by rw [t1, s1]; ring, by rw [t2, s2]; ring, by rw [t3, s3]; ring, by rw [t4, s4]; ring, ?_⟩
+  -- tensors: I + steiner + O(b) = O(a + b) = O(a) + O(b)
+  have e : madd (madd I (steiner3 m c)) (originTensor sq b) = madd (originTensor sq a) (originTensor sq b) := by
+    rw [t5]; exact s5
+  generalize madd I (steiner3 m c) = X at e ⊢
+  generalize originTensor sq a = A at e ⊢
+  generalize originTensor sq b = B at e
+  rcases X with ⟨⟨x00, x01, x02⟩, ⟨x10, x11, x12⟩, ⟨x20, x21, x22⟩⟩
+  rcases A with ⟨⟨a00, a01, a02⟩, ⟨a10, a11, a12⟩, ⟨a20, a21, a22⟩⟩
+  rcases B with ⟨⟨b00, b01, b02⟩, ⟨b10, b11, b12⟩, ⟨b20, b21, b22⟩⟩
+  simp only [madd, M3.mk.injEq, V3.mk.injEq] at e
+  obtain ⟨⟨h00, h01, h02⟩, ⟨h10, h11, h12⟩, ⟨h20, h21, h22⟩⟩ := e
+  congr 1 <;> congr 1 <;> linarith
+
 end C13
